@@ -7,6 +7,7 @@ from ..model import AnalysisError, ModuleConst
 from ..symval import Evaluator, Tup, Mat, NONE, Bool
 from ..symcheck import Oracle, check_equal, compare_values, show, flatten
 from ..rules import where
+from . import common
 from ..mutate import replace_in_function, substitute, text_variant
 
 META = {
@@ -296,6 +297,7 @@ def table_rules(repo, rep):
 
 def run(repo, rep):
     alg.reset()
+    common.typecheck_rules(repo, rep)
     rep.trust('sv/alg.py exact normal forms (circular functions expanded into exponentials: every trigonometric identity holds by construction)')
     rep.trust('Student-t quantiles: regularised incomplete beta function by continued fraction + bisection in sv/tables.py (|error| < 1e-9)')
     orc = Oracle(ORACLE)
